@@ -49,6 +49,8 @@ def bases(tier):
                                   T("c", 90, deps=["box"])]})
             out.append({"L": L, "alap": alap, "resources": rs,
                         "tasks": [T("a", 100, prio=300), T("b", 100, prio=700), {"id": "c", "effort": 120, "alloc": ["r1", "r2"], "prio": 500}]})
+            out.append({"L": L, "alap": alap, "resources": rs,
+                        "tasks": [T("a", 240, limits={"dailymax": "2h"}), T("b", 90, alt=["r2"], prio=300), T("c", 120, limits={"weeklymax": "1h"})]})
             if tier == "thorough":
                 out.append({"L": L, "alap": alap, "resources": [{"id": "r1", "eff": 0.7}, {"id": "r2"}],
                             "tasks": [T("a", 50), T("b", 20, deps=["a"]), T("c", 45, deps=["b"]), T("d", 30)]})
@@ -74,8 +76,10 @@ def overrides_for(base):
         outs.append((tid, "effort", "half"))
         if base["alap"]:
             outs.append((tid, "end", "2025-01-15-17:00"))
+            outs.append((tid, "end", "2024-12-20-17:00"))     # before the project start: unschedulable in that scenario only
         else:
             outs.append((tid, "start", "2025-01-08-10:00"))
+            outs.append((tid, "start", "2025-06-02-09:00"))   # beyond the project end: unschedulable in that scenario only
     return outs
 
 
